@@ -122,27 +122,322 @@ def without_semaphore():
     return [(ent, 'without-semaphore-enter'), (ext, 'without-semaphore-exit')]
 
 
-def _without(acquire_back_on_error):
-    """`async with WithoutSemaphore(sema):` as its contract (C): gives up one unit, takes it back on exit.
-    acquire_back_on_error: what __aexit__ does on an exceptional exit is read from the REAL class on every run (see build)"""
+# ---- (B) the two gathers ---------------------------------------------------------------------------------------------------------
 
-    def enter(eng, st, node):
+
+def gathers():
+    def without_enter(eng, st, node):
         ce = node.items[0].context_expr
+        if ce.keywords or len(ce.args) != 1:
+            raise core.Undecided('WithoutSemaphore called with other than one positional argument')
         eng.oblige(st, 'gives-up-a-unit-it-holds', st.env['HELD'] >= 1)
-        eng.oblige(st, 'of-the-gathers-own-semaphore', to_z3(eng.ev(ce.args[0], st), 'U') == to_z3(eng.ev(pyast.Name(id=st.env['__sema_name__'], ctx=pyast.Load()), st) if st.env['__sema_name__'] in st.env else eng.ev(pyast.parse(st.env['__sema_name__'], mode='eval').body, st), 'U'))
+        eng.oblige(st, 'of-the-gathers-own-semaphore', to_z3(eng.ev(ce.args[0], st), 'U') == to_z3(st.env['sema'], 'U'))
         st.env['HELD'] = st.env['HELD'] - 1
         return [(st, ('value', None))]
 
-    def exit_(eng, st, exc):
-        if exc is None or acquire_back_on_error:
-            st.env['HELD'] = st.env['HELD'] + 1
+    def without_exit(eng, st, exc):
+        # the callee's CONTRACT (C): the unit is taken back on every exit.  Whether the real __aexit__ meets it is the callee's
+        # own obligation (WithoutSemaphore.__aexit__/post/...), not re-examined at each call site
+        st.env['HELD'] = st.env['HELD'] + 1
         return [(st, None)]
 
-    return with_model(enter, exit_)
+    def coro(name):
+        return lambda eng, st, args, kw, node: eng.uf('coro_' + name, ['U'], 'U')(to_z3(args[0], 'U'))
+
+    def create_task(eng, st, args, kw, node):
+        return eng.uf('task_of', ['U'], 'U')(to_z3(args[0], 'U'))
+
+    def star_is_tasks(node):
+        return len(node.args) == 1 and isinstance(node.args[0], pyast.Starred) and isinstance(node.args[0].value, pyast.Name) and node.args[0].value.id == 'tasks' and not node.keywords
+
+    def gather(eng, st, args, kw, node):
+        # assumed contract of asyncio.gather(*aws): awaits all; returns their results in ARGUMENT order, or raises the first exception
+        eng.oblige(st, 'gather-receives-exactly-the-tasks-in-order', z3.BoolVal(star_is_tasks(node)))
+        eng.oblige(st, 'tasks-are-awaited-without-the-callers-unit', st.env['HELD'] == 0)
+        tasks = st.env['tasks']
+        R = pyvc.fresh_value(('list', 'U'), 'gathered')
+        res = eng.uf('result_of', ['U'], 'U')
+        j = z3.Int(pyvc.fresh_name('g_j'))
+        e = z3.Const(pyvc.fresh_name('gather_exc'), pyvc.U)
+
+        def ok(s):
+            s.assume(R.len == tasks.len)
+            s.assume(z3.ForAll([j], z3.Implies(z3.And(j >= 0, j < R.len), z3.Select(R.arr, j) == res(z3.Select(tasks.arr, j)))))
+            s.env['GATHERED'] = True
+
+        def bad(s):
+            s.env['last_exc'] = e
+            s.env['GATHER_FAILED'] = True
+
+        raise Fork(node, [('all-done', None, 'value', R, ok), ('first-exception', e != NONE_U, 'raise', SExc(term=e), bad)])
+
+    def wait(eng, st, args, kw, node):
+        eng.oblige(st, 'waits-for-all-the-tasks', eng.equal(args[0], st.env['tasks']))
+        eng.oblige(st, 'tasks-are-awaited-without-the-callers-unit', st.env['HELD'] == 0)
+        st.env['WAITED'] = True
+        return None
+
+    DONE = lambda eng, t: eng.uf('task_done', ['U'], 'bool')(to_z3(t, 'U'))  # noqa: E731
+
+    def done(eng, st, args, kw, node):
+        return DONE(eng, args[0])
+
+    def cancelled(eng, st, args, kw, node):
+        return eng.uf('task_cancelled', ['U'], 'bool')(to_z3(args[0], 'U'))
+
+    def exception(eng, st, args, kw, node):
+        x = eng.uf('task_exception', ['U'], 'U')(to_z3(args[0], 'U'))
+        st.env['last_task_exc'] = x
+        return x
+
+    def cancel(eng, st, args, kw, node):
+        k = st.env['k']
+        eng.oblige(st, 'cancels-the-task-of-this-iteration', to_z3(args[0], 'U') == z3.Select(st.env['tasks'].arr, k))
+        st.env['CANC'] = z3.Store(st.env['CANC'], k, True)
+        return None
+
+    def setup(eng, st):
+        st.env['task_done'] = pyvc.SFunc('task_done', lambda e, s, args, kw, node: DONE(e, args[0]))
+        for n in ('task_of', 'result_of'):
+            st.env[n] = pyvc.SFunc(n, (lambda n: lambda e, s, args, kw, node: e.uf(n, ['U'], 'U')(to_z3(args[0], 'U')))(n))
+        for n in ('coro_run_with_sema', 'coro_run_with_sema_return_exceptions'):
+            st.env[n] = pyvc.SFunc(n, (lambda n: lambda e, s, args, kw, node: e.uf(n, ['U'], 'U')(to_z3(args[0], 'U')))(n))
+
+    ORDER = 'len(result) == len(pfs) and forall(lambda i: implies(0 <= i < len(pfs), result[i] == result_of(task_of(%s(pfs[i])))))'
+    common = dict(
+        path=UTILS, consts={'NOTHING': NONE_U, 'EMPTYB': z3.K(z3.IntSort(), z3.BoolVal(False))}, setup=setup,
+        ghost_init={'HELD': '1', 'GATHERED': 'False', 'GATHER_FAILED': 'False', 'WAITED': 'False', 'CANC': 'EMPTYB', 'last_exc': 'NOTHING', 'last_task_exc': 'NOTHING'},
+        requires=[],
+    )
+    calls = {'with:WithoutSemaphore': with_model(without_enter, without_exit), 'asyncio.create_task': create_task, 'asyncio.gather': gather, 'asyncio.wait': wait, 'sys.exc_info': _exc_info,
+             '.done': done, '.cancelled': cancelled, '.exception': exception, '.cancel': cancel}
+    ret = Contract(
+        qualname='bounded_gather2_return_exceptions', types={'sema': 'U', 'tasks': 'List[U]'}, extra_inputs={'pfs': 'List[U]'},
+        calls=dict(calls, run_with_sema_return_exceptions=coro('run_with_sema_return_exceptions')),
+        ensures=[
+            ('one-outcome-per-partial-function-in-submission-order', ORDER % 'coro_run_with_sema_return_exceptions'),
+            ('callers-unit-restored', 'HELD == 1'),
+        ],
+        raises={'*': 'exc == last_exc'}, on_raise=[('callers-unit-restored-when-the-gather-itself-fails', 'HELD == 1')],
+        canaries=[('no-results', 'len(result) == 0')], **common,
+    )
+    SETTLED = 'forall(lambda j: implies(0 <= j < %s, task_done(tasks[j]) or CANC[j]))'
+    rai = Contract(
+        qualname='bounded_gather2_raise_exceptions', types={'sema': 'U', 'cancel_on_error': 'bool', 'tasks': 'List[U]', 'task': 'U', 'exc': 'U'}, extra_inputs={'pfs': 'List[U]'},
+        calls=dict(calls, run_with_sema=coro('run_with_sema')),
+        loops={'re:^for task in tasks': LoopSpec(index='k', invariants=[('tasks-so-far-finished-or-cancelled', SETTLED % 'k'), ('nothing-awaited-yet', 'not WAITED and HELD == 1 and GATHER_FAILED')], modifies=['CANC', 'last_task_exc'])},
+        ensures=[
+            ('one-result-per-partial-function-in-submission-order', ORDER % 'coro_run_with_sema'),
+            ('callers-unit-restored', 'HELD == 1'),
+        ],
+        raises={'*': 'exc == last_exc'},
+        on_raise=[
+            ('raises-the-first-exception', 'exc == last_exc'),
+            ('cancel-on-error-every-task-finished-or-cancelled-before-the-exception-leaves', 'implies(cancel_on_error, ' + SETTLED % 'len(tasks)' + ')'),
+            ('cancel-on-error-all-tasks-awaited-before-the-exception-leaves', 'implies(cancel_on_error and len(tasks) > 0, WAITED)'),
+            ('callers-unit-restored-on-errors', 'HELD == 1'),
+        ],
+        canaries=[('no-results', 'len(result) == 0')], **common,
+    )
+    return [(ret, 'gather-return-exceptions'), (rai, 'gather-raise-exceptions')]
+
+
+
+# ---- (D) dispatch ---------------------------------------------------------------------------------------------------------------
+
+
+def dispatch():
+    def star_pfs(node):
+        return len(node.args) == 2 and isinstance(node.args[1], pyast.Starred) and isinstance(node.args[1].value, pyast.Name) and node.args[1].value.id == 'pfs'
+
+    def variant(which):
+        def model(eng, st, args, kw, node):
+            eng.oblige(st, 'same-semaphore-and-all-partial-functions-in-order', z3.And(z3.BoolVal(star_pfs(node)), to_z3(args[0], 'U') == to_z3(st.env['sema'], 'U')))
+            eng.oblige(st, 'called-holding-the-callers-unit', st.env['HELD'] == 1)
+            st.env['VARIANT'] = z3.IntVal(which)
+            if which == 2:
+                st.env['COE'] = eng.truthy(kw.get('cancel_on_error', False))
+                eng.oblige(st, 'only-cancel-on-error-is-passed', z3.BoolVal(set(kw) <= {'cancel_on_error'}))
+            else:
+                eng.oblige(st, 'no-options-for-the-return-exceptions-variant', z3.BoolVal(not kw))
+            v = z3.Const(pyvc.fresh_name('variant_result'), pyvc.U)
+            st.env['INNER'] = v
+            return v
+        return model
+
+    d = Contract(
+        path=UTILS, qualname='bounded_gather2', types={'sema': 'U', 'return_exceptions': 'bool', 'cancel_on_error': 'bool'}, consts={'NOTHING': NONE_U},
+        calls={'bounded_gather2_return_exceptions': variant(1), 'bounded_gather2_raise_exceptions': variant(2)}, ghost_init={'HELD': '1', 'VARIANT': '0', 'COE': 'False', 'INNER': 'NOTHING'},
+        ensures=[
+            ('exceptions-in-place-iff-asked-for', 'VARIANT == (1 if return_exceptions else 2) and result == INNER'),
+            ('cancellation-of-the-rest-iff-asked-for', 'implies(not return_exceptions, COE == cancel_on_error)'),
+        ],
+        raises={'ValueError': 'return_exceptions and cancel_on_error'}, canaries=[('always-raising-variant', 'VARIANT == 2')],
+    )
+
+    def mk_sema(eng, st, args, kw, node):
+        st.env['SEMA_UNITS'] = eng.num(args[0])
+        return z3.Const('the_new_semaphore', pyvc.U)
+
+    def inner(eng, st, args, kw, node):
+        ok = len(node.args) == 2 and isinstance(node.args[1], pyast.Starred) and isinstance(node.args[1].value, pyast.Name) and node.args[1].value.id == 'pfs'
+        eng.oblige(st, 'the-new-semaphore-and-all-partial-functions-in-order', z3.And(z3.BoolVal(ok), to_z3(args[0], 'U') == z3.Const('the_new_semaphore', pyvc.U)))
+        # precondition of bounded_gather2 (ghost HELD == 1 in (B)): the caller holds one unit of the semaphore it passes
+        eng.oblige(st, 'holds-one-unit-of-the-semaphore-it-passes', st.env['HELD'] == 1)
+        eng.oblige(st, 'options-passed-through', z3.And(z3.BoolVal(set(kw) == {'return_exceptions', 'cancel_on_error'}), eng.truthy(kw.get('return_exceptions', False)) == eng.truthy(st.env['return_exceptions']), eng.truthy(kw.get('cancel_on_error', False)) == eng.truthy(st.env['cancel_on_error'])))
+        st.env['n_inner'] = st.env['n_inner'] + 1
+        v = z3.Const(pyvc.fresh_name('gather_result'), pyvc.U)
+        st.env['INNER'] = v
+        e = z3.Const(pyvc.fresh_name('gather_exc'), pyvc.U)
+        raise Fork(node, [('gathered', None, 'value', v, None), ('gather-raises', e != NONE_U, 'raise', SExc(term=e), lambda s: s.env.__setitem__('last_exc', e))])
+
+    g = Contract(
+        path=UTILS, qualname='bounded_gather', types={'parallelism': 'int', 'return_exceptions': 'bool', 'cancel_on_error': 'bool'}, consts={'NOTHING': NONE_U}, requires=['parallelism >= 1'],
+        calls={'asyncio.Semaphore': mk_sema, 'with:sema': _sema_with(), 'bounded_gather2': inner}, ghost_init={'HELD': '0', 'SEMA_UNITS': '0', 'n_inner': '0', 'INNER': 'NOTHING', 'last_exc': 'NOTHING'},
+        ensures=[('a-semaphore-of-parallelism-units-one-gather-result-returned-nothing-held', 'SEMA_UNITS == parallelism and n_inner == 1 and result == INNER and HELD == 0')],
+        raises={'*': 'exc == last_exc'}, on_raise=[('nothing-held-after-an-error', 'HELD == 0')], canaries=[('no-gather', 'n_inner == 0')],
+    )
+    return [(d, 'dispatch'), (g, 'bounded-gather')]
+
+
+# ---- (E) OnlineBoundedGather2 --------------------------------------------------------------------------------------------------
+
+
+def online():
+    out = []
+    PSH = z3.Const('pool_shutdown_marker', pyvc.U)
+
+    # -- run_and_cleanup: pool state is re-read after the await of the job (other jobs ran meanwhile)
+    for tag in ('pool-open', 'pool-shut-down-meanwhile'):
+        def f_call(eng, st, args, kw, node, tag=tag):
+            eng.oblige(st, 'job-runs-holding-exactly-one-unit', st.env['HELD'] == 1)
+            st.env['n_calls'] = st.env['n_calls'] + 1
+            me = st.env['self']
+            # rely (other jobs of the pool ran while this one awaited): the stored first exception only goes from None to set;
+            # this job's entry stays registered unless the whole pool was shut down (_pending is None)
+            me.fields['_exception'] = st.env['EXC_NOW']
+            st.env['EXC_SEEN'] = st.env['EXC_NOW']
+            if tag == 'pool-shut-down-meanwhile':
+                me.fields['_pending'] = None
+            else:
+                me.fields['_pending'] = st.env['PENDING_NOW']
+            v = z3.Const(pyvc.fresh_name('job_value'), pyvc.U)
+            e = z3.Const(pyvc.fresh_name('job_exc'), pyvc.U)
+            c = eng.isinst_pred(e, 'CancelledError')
+            raise Fork(node, [('job-returns', v != NONE_U, 'value', v, lambda s: s.env.__setitem__('JOB_VALUE', v)),
+                              ('job-cancelled', z3.And(e != NONE_U, c), 'raise', SExc(term=e), lambda s: s.env.__setitem__('JOB_CANCELLED', True)),
+                              ('job-fails', z3.And(e != NONE_U, z3.Not(c)), 'raise', SExc(term=e), lambda s: s.env.__setitem__('JOB_EXC', e))])
+
+        def shutdown(eng, st, args, kw, node):
+            st.env['n_shutdown'] = st.env['n_shutdown'] + 1
+            st.env['self'].fields['_pending'] = None  # contract of _shutdown (below)
+            return z3.Const('shutdown_coro', pyvc.U)
+
+        def done_set(eng, st, args, kw, node):
+            st.env['DONE_SET'] = True
+            return None
+
+        def setup(eng, st, tag=tag):
+            st.env['self'] = SRecord('OnlineBoundedGather2', {'_sema': z3.Const('pool_sema', pyvc.U), '_exception': st.env['EXC_BEFORE'], '_pending': st.env['PENDING_BEFORE'], '_done_event': z3.Const('done_event', pyvc.U)})
+
+        none_or = lambda v: "(%s == NOTHING)" % v  # noqa: E731
+        out.append((Contract(
+            path=UTILS, qualname='OnlineBoundedGather2.call.run_and_cleanup', label='OnlineBoundedGather2.call.run_and_cleanup[%s]' % tag,
+            extra_inputs={'id': 'int', 'f': 'U', 'EXC_BEFORE': 'U', 'EXC_NOW': 'U', 'PENDING_BEFORE': 'Map[int, U]', 'PENDING_NOW': 'Map[int, U]'}, consts={'NOTHING': NONE_U}, setup=setup,
+            # None is the constant const_None of the opaque sort: "no exception stored" is `_exception is None`
+            requires=['id in PENDING_BEFORE', 'id in PENDING_NOW', 'implies(not (EXC_BEFORE is None), EXC_NOW == EXC_BEFORE)', 'EXC_NOW != NOTHING and EXC_BEFORE != NOTHING'],
+            calls={'with:self._sema': _sema_with(), 'f': f_call, 'sys.exc_info': _exc_info, 'self._shutdown': shutdown, 'asyncio.shield': lambda eng, st, args, kw, node: None,
+                   'self._done_event.set': done_set, 'log.info': lambda eng, st, args, kw, node: None},
+            ghost_init={'HELD': '0', 'n_calls': '0', 'n_shutdown': '0', 'JOB_VALUE': 'NOTHING', 'JOB_EXC': 'NOTHING', 'JOB_CANCELLED': 'False', 'DONE_SET': 'False', 'last_exc': 'NOTHING', 'EXC_SEEN': 'EXC_BEFORE'},
+            ensures=[
+                ('holds-nothing-afterwards', 'HELD == 0'),
+                ('returns-the-jobs-value-or-none', 'implies(JOB_VALUE != NOTHING, result == JOB_VALUE) and implies(JOB_VALUE == NOTHING, result is None)'),
+                ('first-failure-is-stored-and-shuts-the-pool-down', 'implies(JOB_EXC != NOTHING and EXC_SEEN is None, self._exception == JOB_EXC and n_shutdown == 1)'),
+                ('later-failures-never-replace-the-first', 'implies(JOB_EXC != NOTHING and not (EXC_SEEN is None), self._exception == EXC_SEEN and n_shutdown == 0)'),
+                ('success-and-cancellation-are-not-failures', 'implies(JOB_EXC == NOTHING, self._exception == EXC_SEEN and n_shutdown == 0)'),
+                ('the-job-is-no-longer-pending', 'self._pending is None or not (id in self._pending)'),
+                ('last-job-out-signals-done', 'implies(not (self._pending is None) and len(self._pending) == 0, DONE_SET)'),
+            ],
+            raises={}, canaries=[('never-fails', 'JOB_EXC == NOTHING'), ('never-shuts-down', 'n_shutdown == 0')],
+        ), 'online-run-and-cleanup-' + tag))
+
+    # -- _shutdown: cancels every unfinished job and closes the pool
+    def t_done(eng, st, args, kw, node):
+        return eng.uf('task_done', ['U'], 'bool')(to_z3(args[0], 'U'))
+
+    def t_cancelled(eng, st, args, kw, node):
+        return eng.uf('task_cancelled', ['U'], 'bool')(to_z3(args[0], 'U'))
+
+    def t_exception(eng, st, args, kw, node):
+        # pool jobs are run_and_cleanup coroutines, which never raise (proved above): a finished job has no exception
+        return None
+
+    def t_cancel(eng, st, args, kw, node):
+        k = st.env['k']
+        st.env['CANC'] = z3.Store(st.env['CANC'], k, True)
+        return None
+
+    def setup_sd(eng, st):
+        st.env['task_done'] = pyvc.SFunc('task_done', lambda e, s, args, kw, node: e.uf('task_done', ['U'], 'bool')(to_z3(args[0], 'U')))
+        st.env['ITEMS'] = st.env['self'].fields['_pending'].items
+
+    out.append((Contract(
+        path=UTILS, qualname='OnlineBoundedGather2._shutdown', self_fields={'_pending': 'Dict[int, U]', '_done_event': 'U'}, types={'t': 'U', '_': 'int'}, consts={'EMPTYB': z3.K(z3.IntSort(), z3.BoolVal(False))}, setup=setup_sd,
+        calls={'.done': t_done, '.cancelled': t_cancelled, '.exception': t_exception, '.cancel': t_cancel, 'self._done_event.set': lambda eng, st, args, kw, node: st.env.__setitem__('DONE_SET', True)},
+        ghost_init={'CANC': 'EMPTYB', 'DONE_SET': 'False'},
+        loops={0: LoopSpec(index='k', invariants=[('jobs-so-far-finished-or-cancelled', 'forall(lambda j: implies(0 <= j < k, task_done(ITEMS[j][1]) or CANC[j]))')], modifies=['CANC'])},
+        ensures=[('every-job-finished-or-cancelled-pool-closed-done-signalled', 'forall(lambda j: implies(0 <= j < len(ITEMS), task_done(ITEMS[j][1]) or CANC[j])) and self._pending is None and DONE_SET')],
+        raises={}, canaries=[('cancels-nothing', 'forall(lambda j: not CANC[j])')],
+    ), 'online-shutdown'))
+
+    # -- call(): refuses after shutdown
+    def setup_call(eng, st):
+        st.env['self'] = SRecord('OnlineBoundedGather2', {'_pending': None, '_counter': z3.Int('counter0')})
+
+    out.append((Contract(
+        path=UTILS, qualname='OnlineBoundedGather2.call', label='OnlineBoundedGather2.call[after-shutdown]', types={'f': 'U'}, setup=setup_call,
+        ensures=[], raises={'PoolShutdownError': True},
+    ), 'online-call-after-shutdown'))
+    return out
+
+
+SCENARIOS = {
+    'run-with-sema': ['parallelism', 'order'], 'run-with-sema-return-exceptions': ['in-place'], 'without-semaphore-enter': ['over-release', 'parallelism'], 'without-semaphore-exit': ['over-release'],
+    'gather-return-exceptions': ['in-place', 'order', 'parallelism'], 'gather-raise-exceptions': ['cancel-on-error', 'order', 'parallelism'], 'dispatch': ['in-place', 'cancel-on-error', 'order'], 'bounded-gather': ['parallelism'],
+}
 
 
 def build(ctx):
-    for c, label in runners() + without_semaphore():
+    script = open(os.path.join(os.path.dirname(__file__), 'native', 'c20_replay.py')).read()
+    cache = {}
+
+    def native(which):
+        key = tuple(which)
+        if key not in cache:
+            cache[key] = core.run_native(script, {'which': list(which)}, timeout=240)
+        return cache[key]
+
+    for c, label in runners() + without_semaphore() + gathers() + dispatch() + online():
         eng = pyvc.Engine(ctx, c)
+        eng.replayer = (lambda which: lambda model, obl: native(which))(SCENARIOS.get(label, ['online']))
         eng.run()
         _strict(ctx, eng, label)
+        if label == 'online-call-after-shutdown':
+            ctx.add(core.decided('C20/OnlineBoundedGather2.call[after-shutdown]/never-accepts-a-job', eng.normal_exits == 0 and eng.exc_exits >= 1, 'normal exits: %d' % eng.normal_exits))
+    ctx.witness_search = lambda: native(['parallelism', 'order', 'in-place', 'cancel-on-error', 'online'])
+    ctx.assume('asyncio: one coroutine runs at a time and switches only at await; asyncio.Semaphore units are counted per coroutine by the ghost HELD; `async with sema` acquires on entry (cancellable while waiting) and releases on exit')
+    ctx.assume('asyncio.gather(*tasks) awaits all, returns results in argument order or raises the first exception; asyncio.wait(tasks) returns when all are done; a cancelled task that is awaited is finished; create_task schedules the coroutine')
+    ctx.assume('precondition of the gathers and of OnlineBoundedGather2: the caller holds one unit of the semaphore it passes (discharged for bounded_gather; hailtop.aiotools.copy enters its semaphore before Copier.copy; other call sites not scanned)')
+    ctx.assume('call sites of WithoutSemaphore are verified against its CONTRACT (unit taken back on every exit); the real __aexit__ does not meet it on exceptional exits - recorded known finding')
+    ctx.assume('OnlineBoundedGather2: between the await of a job and its cleanup other jobs may have stored the first exception / shut the pool down (rely: the stored exception never changes once set; a job is deregistered only by itself or by shutdown)')
+    ctx.undecided('OnlineBoundedGather2.__aexit__ waiting loop and wait(): termination / no task left running depends on asyncio scheduling; observed on the real class: a job cancelled before its first step never deregisters and the exit waits forever (liveness, not expressible as a contract here)')
+    ctx.undecided('the order in which the semaphore admits waiting tasks, and fairness')
+    ctx.undecided('that every caller of bounded_gather2 in the repository holds a unit of the semaphore it passes')
+
+
+def thorough(ctx):
+    script = open(os.path.join(os.path.dirname(__file__), 'native', 'c20_replay.py')).read()
+    r = core.run_native(script, {}, timeout=300)
+    if 'error' in r:
+        raise core.CheckerBug('native scenario host failed: %r' % (r,))
+    ctx.bounded_standin('native-gather-scenarios', 'real hailtop.utils.utils under asyncio: parallelism 1..5, submission order, exceptions in place (CancelledError, ValueError, SystemError), cancel_on_error over 4 submission orders, OnlineBoundedGather2 first-exception and exit', len(r.get('scenarios', [])), not r.get('confirmed'), detail=repr(r) if r.get('confirmed') else '')
